@@ -5,9 +5,11 @@ the response a correct decoder must produce
 
 Written from the wire formats (vanilla SWAT4 / AdminMod / GS1 mod), independently of the decoder
 model; shares with `Model/GS1.lean` only the data types (`Response`, `Ver`), the byte constants,
-the latin-1 conversion and the association-list map (`insertKV`).  `encodeStatus` *defines*
-what a well-formed response stream is (C08 quantifies over its outputs); `toResponse` defines
-"decoded faithfully".
+the latin-1 conversion and the association-list map (`insertKV`).  `encodeWire` (over any wire
+order `WireOf` of a well-formed status; `encodeStatus` = the servers' own order) *defines* what a
+well-formed response stream is (C08 quantifies over its outputs); `toResponse` defines "decoded
+faithfully": in particular the players, who carry explicit indexes (gaps, any listing order, their
+pairs anywhere in the stream), come out in ascending order of index (`sortById`).
 -/
 namespace Swat4.GS1Spec
 open Swat4 Swat4.GS1
